@@ -45,9 +45,14 @@ Section WithClasses.
   Proof. exact (Proofs.type_name_one_token is_alpha is_alnum Hsub Hascii). Qed.
 
   (** Every line of a rendered description: no line break / NUL, and it cannot start a doc tag. *)
-  Theorem doc_lines_ok : forall (t l : text),
-    In l (doc_comment_lines t) -> clean_text l /\ no_tag_start l = true.
+  Theorem doc_lines_ok : forall (after_tag : bool) (t l : text),
+    In l (doc_comment_lines after_tag t) -> clean_text l /\ no_tag_start l = true.
   Proof. exact Proofs.doc_comment_lines_ok. Qed.
+
+  (** The description block of a field (it directly follows a tag line): its first non-blank line never starts
+      with something the doc parser reads as a continuation of that tag. *)
+  Theorem field_description_guarded : forall (t : text), no_continuation (doc_comment_lines true t) = true.
+  Proof. exact Proofs.field_description_guarded. Qed.
 
   (** [---@field] lines are well formed for ALL names, all (grammatical) types and all descriptions. *)
   Theorem field_line_ok : forall (name ty : text) (desc : option text),
